@@ -160,6 +160,7 @@ type runner struct {
 	swapped   bool
 	firstP    map[int]bool
 	injected  map[int]bool // loads whose injected late failure fired
+	used      [nAddr]bool  // addresses some config of the scenario lists
 	linger    [nUnix]bool  // a dropped unix socket was seen accepting without answering; not probed again until rebound
 	results   []string     // per load: ok err same stale
 	poisoned  bool         // a config that should have been accepted was rejected; the scenario stops there
@@ -230,6 +231,9 @@ func (r *runner) record(kind byte, gen int, mod string, probe bool) *event {
 		for a := 0; a < nAddr; a++ {
 			held := len(ev.hold[a]) > 0
 			switch {
+			case !held && !r.used[a] && kind != 'L' && kind != 'R' && kind != 'D':
+				// an address no config of this scenario ever lists: looked at between loads only
+				ev.ans[a] = "-"
 			case !held && isUnix(a) && r.linger[a-nTCP]:
 				ev.ans[a] = "-"
 			case !held && isUnix(a):
